@@ -140,6 +140,10 @@ Calls ==
      \cup {MkCall("ESDTUnSetRole", "esdtsc", a, <<TokArg(TokF), RawArg(r)>>, 0) : a \in {"u0a", "u0b"}, r \in {RoleMint, RoleBurn}}
      \cup {MkCall("ESDTSetRole", "u0b", "u0b", <<TokArg(TokF), RawArg(RoleMint)>>, 0)}
    ELSE {})
+  \cup (IF "nftroles" \in Fns THEN
+     \* the NFT roles of the first holder are taken away and given back one at a time (every subset of them becomes reachable)
+     {MkCall(f, "esdtsc", "u0a", <<TokArg(TokN), RawArg(r)>>, 0) : f \in {"ESDTSetRole", "ESDTUnSetRole"}, r \in {RoleAddQ, RoleNBurn, RoleAddURI, RoleUpd}}
+   ELSE {})
   \cup (IF "handover" \in Fns THEN
      {MkCall("ESDTNFTCreateRoleTransfer", "esdtsc", a, <<TokArg(TokN), AddrArgC(b)>>, 0) : a \in {"u0a", "u0b", "u1a"}, b \in {"u0a", "u0b", "u1a"}}
    ELSE {})
